@@ -16,16 +16,18 @@ TInit ==
   /\ rpc = [i \in Reqs |-> "off"] /\ outcome = [i \in Reqs |-> None]
   /\ table = {} /\ cancelled = {} /\ spc = "read" /\ cur = NoItem /\ owner = None
   /\ inbox = <<>> /\ npeer = 0 /\ delivered = [i \in Reqs |-> <<>>] /\ handled = <<>> /\ dropped = <<>>
+  /\ misrouted = <<>> /\ skind = Trace[t0].skind
 
 ToSet(s) == {s[i] : i \in 1..Len(s)}
 TrReset ==
   /\ l = t0 /\ IsEv("reset")
   /\ rpc' = [i \in Reqs |-> IF i \in ToSet(Trace[l].reqs) THEN "idle" ELSE "off"]
-  /\ UNCHANGED <<outcome, table, cancelled, spc, cur, owner, inbox, npeer, delivered, handled, dropped>>
+  /\ skind \in SessionKinds
+  /\ UNCHANGED <<outcome, table, cancelled, spc, cur, owner, inbox, npeer, delivered, handled, dropped, misrouted, skind>>
 
-Item(x) == [id |-> IF x.id \in Reqs THEN x.id ELSE Unknown, kind |-> x.kind, resp |-> x.resp]
+Item(x) == [id |-> IF x.id \in Reqs THEN x.id ELSE Unknown, kind |-> x.kind, resp |-> x.resp, q |-> x.q]
 
-TrPeer == IsEv("peer") /\ PeerSend(Item(Trace[l].item))
+TrPeer == IsEv("peer") /\ Trace[l].item.q \in {"default", "explicit"} /\ PeerSend(Item(Trace[l].item))
 TrCancel == IsEv("cancel") /\ Cancel(Trace[l].i)
 TrRegistered == IsHook("resp.registered") /\ Register(Trace[l].id)
 TrSent == IsHook("resp.sent") /\ Send(Trace[l].id, TRUE)
@@ -42,7 +44,7 @@ TrDeregistered ==
         /\ table' = table \ {i}
         /\ outcome' = [outcome EXCEPT ![i] = "senderr"]
         /\ rpc' = [rpc EXCEPT ![i] = "finished"]
-        /\ UNCHANGED <<cancelled, spc, cur, owner, inbox, npeer, delivered, handled, dropped>>
+        /\ UNCHANGED <<cancelled, spc, cur, owner, inbox, npeer, delivered, handled, dropped, misrouted, skind>>
 TrRet ==      \* the call returned to its caller
   /\ IsEv("ret")
   /\ LET i == Trace[l].i IN
@@ -54,7 +56,12 @@ TrLookup == IsHook("serve.lookup") /\ Lookup /\ (cur.id = Trace[l].id \/ (cur.id
 TrHandoffPoint == IsHook("serve.handoff") /\ spc = "offer" /\ UNCHANGED vars
 TrHanded == IsHook("serve.handed") /\ spc = "handed" /\ UNCHANGED vars
 TrCtxDone == IsHook("serve.ctxdone") /\ (CtxSkip \/ GoneSkip)
-TrResume == IsHook("serve.resume") /\ UNCHANGED vars
+(* the serve loop goes on after a hand-off: only once the requester has closed the response *)
+(* it was handed (AwaitClose, silent, has been taken), whatever happened to its context      *)
+TrResume ==
+  /\ IsHook("serve.resume")
+  /\ (IF Trace[l].id \in Reqs THEN rpc[Trace[l].id] = "finished" ELSE FALSE)
+  /\ UNCHANGED vars
 TrHandler ==
   /\ IsEv("handler") /\ Handle
   /\ cur.kind = Trace[l].kind /\ cur.resp = Trace[l].resp
@@ -85,6 +92,7 @@ Silent ==
   /\ UNCHANGED l
 
 Inv == /\ C06_OwnReplyOnly /\ C06_AtMostOneReply /\ C06_OutcomeConsistent /\ C06_UnclaimedToHandler /\ C06_TableClean
+       /\ C06_WaitedForToCaller /\ C06_HeldUntilClosed
 
 TNext ==
   /\ l < EndOf(t0)
